@@ -171,7 +171,7 @@ def isolation(ctx):
 
 
 @rule('SA-RESHUFFLE.flag')
-@props('C06')
+@props('C06', 'C11', 'C12')
 def flag(ctx):
     R, D, acc = derived(ctx)
     pc = ctx.cls('pycdlib.PyCdlib')
@@ -253,3 +253,83 @@ def _always_marks(ctx, fi, depth=0):
         return st
     IN = g.forward(False, transfer, lambda a, b: a and b)
     return bool(IN[g.exit.id])
+
+
+@rule('SA-RESHUFFLE.mustwrite')
+@props('C06', 'C11', 'C12')
+def mustwrite(ctx):
+    """Inside the pass every update of an object's own derived fields is unconditional with respect to the
+    arguments: a `self.<field> = ...` reachable from _reshuffle_extents may be skipped by a feature test
+    (`self.efi`, `x is not None`) or a refusal (raise), but not by a test on the method's parameters
+    ("nothing changed, skip"): the fields written after such a test usually depend on more inputs than the
+    test compares (image size, other extents), and they keep their old values when only those changed."""
+    from .. import expand as ex
+    R, D, acc = derived(ctx)
+    obs = []
+    nfun = 0
+    for q in sorted(R):
+        fi = ctx.m.functions[q]
+        if '<locals>' in q or fi.cls is None:
+            continue
+        params = set(p.lstrip('*') for p in fi.params[1:])
+        if not params:
+            continue
+        par = ctx.parents(fi)
+        stores = []
+        for n in ctx.own_nodes(fi):
+            if isinstance(n, (ast.Assign, ast.AugAssign)):
+                tg = n.targets if isinstance(n, ast.Assign) else [n.target]
+                for t in tg:
+                    root = t
+                    while isinstance(root, (ast.Attribute, ast.Subscript)):
+                        root = root.value
+                    if isinstance(t, ast.Attribute) and isinstance(root, ast.Name) and root.id == 'self':
+                        stores.append((n, t))
+        if not stores:
+            continue
+        nfun += 1
+        bad = {}
+        for st, t in stores:
+            # enclosing tests and earlier `if c: return/continue/break` in enclosing blocks
+            cur = st
+            while True:
+                p = par.get(id(cur))
+                if p is None:
+                    break
+                for fld in ('body', 'orelse', 'finalbody'):
+                    blk = getattr(p, fld, None)
+                    if isinstance(blk, list) and any(s is cur for s in blk):
+                        for s in blk:
+                            if s is cur:
+                                break
+                            if isinstance(s, ast.If) and not s.orelse and s.body and isinstance(s.body[-1], (ast.Return, ast.Continue, ast.Break)):
+                                names = set(x.id for x in ast.walk(s.test) if isinstance(x, ast.Name))
+                                after = blk[[i for i, z in enumerate(blk) if z is s][0] + 1:]
+                                used = set(x.id for z in after for x in ast.walk(z) if isinstance(x, ast.Name)) & params
+                                if names & params and used - names:
+                                    bad.setdefault(norm(s.test), (s, [], sorted(used - names)))[1].append(norm(t))
+                        if isinstance(p, ast.If):
+                            names = set(x.id for x in ast.walk(p.test) if isinstance(x, ast.Name))
+                            used = set(x.id for z in blk for x in ast.walk(z) if isinstance(x, ast.Name)) & params
+                            if names & params and not _is_none_test(p.test) and used - names:
+                                bad.setdefault(norm(p.test), (p, [], sorted(used - names)))[1].append(norm(t))
+                        break
+                if p is fi.node:
+                    break
+                cur = p
+        for test, (node, tgts, other) in sorted(bad.items()):
+            obs.append(Ob('SA-RESHUFFLE.mustwrite', '%s|%s' % (q, test), False, ctx.loc(fi, node),
+                          '%s runs inside the recomputation pass, but whether it updates %s depends on a test of some of its arguments (`%s`) while the '
+                          'skipped updates also use %s: those fields keep their previous values when only the uncompared input changed, '
+                          'e.g. after an edit that changes the image size but leaves this object where it was'
+                          % (q, ', '.join(sorted(set(tgts))[:5]), test, ', '.join('`%s`' % o for o in other))))
+        if not bad:
+            obs.append(Ob('SA-RESHUFFLE.mustwrite', q, True, ctx.loc(fi, fi.node)))
+    if nfun < 20:
+        raise AnalysisError('anchor-vanished: updating methods inside the pass (%d)' % nfun)
+    return obs
+
+
+def _is_none_test(t):
+    return isinstance(t, ast.Compare) and len(t.ops) == 1 and isinstance(t.ops[0], (ast.Is, ast.IsNot)) and \
+        isinstance(t.comparators[0], ast.Constant) and t.comparators[0].value is None
